@@ -208,13 +208,14 @@ class WSGIContainer:
         .. versionchanged:: 6.3
            No longer a static method.
         """
-        hostport = request.host.split(":")
-        if len(hostport) == 2:
-            host = hostport[0]
-            port = int(hostport[1])
-        else:
-            host = request.host
-            port = 443 if request.protocol == "https" else 80
+        # The Host header is host[:port]; the host may be a bracketed IPv6
+        # literal (which contains colons itself) and the port may be empty.
+        host, sep, port = request.host.rpartition(":")
+        if not sep or (port and not port.isdigit()):
+            # No port: the last colon, if any, belongs to an IPv6 literal.
+            host, port = request.host, ""
+        if not port:
+            port = "443" if request.protocol == "https" else "80"
         environ = {
             "REQUEST_METHOD": request.method,
             "SCRIPT_NAME": "",
@@ -224,7 +225,7 @@ class WSGIContainer:
             "QUERY_STRING": request.query,
             "REMOTE_ADDR": request.remote_ip,
             "SERVER_NAME": host,
-            "SERVER_PORT": str(port),
+            "SERVER_PORT": port,
             "SERVER_PROTOCOL": request.version,
             "wsgi.version": (1, 0),
             "wsgi.url_scheme": request.protocol,
